@@ -440,8 +440,14 @@ func rawRequest(addr string, lines ...string) (*http.Response, net.Conn, *bufio.
 // wsStaysOpen performs a WebSocket handshake with the given spelling of the
 // Upgrade header value, waits for `wait`, then exchanges one frame.
 func wsStaysOpen(addr, host, upgradeValue string, wait time.Duration) error {
+	return wsStaysOpenConn(addr, host, upgradeValue, "Upgrade", wait)
+}
+
+// wsStaysOpenConn: the Connection header is a token list; a handshake may
+// name other options besides Upgrade (browsers send "keep-alive, Upgrade").
+func wsStaysOpenConn(addr, host, upgradeValue, connectionValue string, wait time.Duration) error {
 	resp, c, br, err := rawRequest(addr,
-		"GET /ws HTTP/1.1", "Host: "+host, "Upgrade: "+upgradeValue, "Connection: Upgrade",
+		"GET /ws HTTP/1.1", "Host: "+host, "Upgrade: "+upgradeValue, "Connection: "+connectionValue,
 		"Sec-WebSocket-Key: dGhlIHNhbXBsZSBub25jZQ==", "Sec-WebSocket-Version: 13")
 	if err != nil {
 		return fmt.Errorf("handshake: %w", err)
@@ -544,6 +550,15 @@ func c08Failures(run *evid.Run, evals, nontrivial *int) {
 			kind := "websocket upgrade (Upgrade: " + spelling + ") outlives the proxy timeout via " + n.ID
 			if err != nil {
 				report(kind, "timeout-applied-to-websocket-upgrade:"+spelling, err.Error())
+			} else {
+				report(kind, "", "")
+			}
+		}
+		for _, conn := range []string{"keep-alive, Upgrade", "upgrade", "Upgrade, keep-alive"} {
+			err := wsStaysOpenConn(n.ProxyAddr(), "e1.piko.test", "websocket", conn, 3*timeout)
+			kind := "websocket upgrade (Connection: " + conn + ") outlives the proxy timeout via " + n.ID
+			if err != nil {
+				report(kind, "timeout-applied-to-websocket-upgrade:connection-token-list", err.Error())
 			} else {
 				report(kind, "", "")
 			}
